@@ -159,15 +159,15 @@ Proof. intros H. apply bip_edges_from_shape in H as [u [v [-> _]]]. eauto. Qed.
 
 (* ---------- every graph-indexed shape, through its core ---------- *)
 Lemma shape_via_bip s adj R : shape_bip s = Some (adj, R) ->
-  gsize s = bip_size adj /\ indices s = map (of_core s) (bip_edges adj) /\
-  (forall off i, to_id off s i = pair_id (bip_to_id off adj) (to_core s i)) /\
-  (forall off l, to_index off s l =
+  gsize s = bip_size adj /\ vg_indices s = map (of_core s) (bip_edges adj) /\
+  (forall off i, vg_to_id off s i = pair_id (bip_to_id off adj) (to_core s i)) /\
+  (forall off l, vg_to_index off s l =
      if (off + 1 <=? Z.abs l) && (Z.abs l <=? off + bip_size adj)
      then option_map (of_core s) (bip_to_index off adj (Z.abs l)) else None).
 Proof.
   intros H. destruct s as [| | | | ? [|] | | |]; try discriminate; cbn [shape_bip] in H; injection H as <- <-;
     (split; [reflexivity|]; split; [reflexivity|]; split;
-     [intros off i; cbn [to_id shape_bip]; destruct (to_core _ i) as [|u [|v [|? ?]]]; reflexivity
+     [intros off i; cbn [vg_to_id shape_bip]; destruct (to_core _ i) as [|u [|v [|? ?]]]; reflexivity
      |intros off l; reflexivity]).
 Qed.
 
@@ -230,9 +230,9 @@ Qed.
 
 Definition shape_wf (s : shape) : Prop :=
   match s with
-  | Single => True
-  | Block ranges => ranges <> [] /\ nonneg_all ranges
-  | Words _ n k => 0 <= n /\ 0 <= k
+  | GSingle => True
+  | GBlock ranges => ranges <> [] /\ nonneg_all ranges
+  | GWords _ n k => 0 <= n /\ 0 <= k
   | BipEdges adj _ => adj_nodup adj
   | DiEdges succ _ => adj_nodup succ
   | GraphEdges adj => adj_nodup adj
